@@ -528,3 +528,146 @@ def check_plan_invariants(ctx, rid):
         bad.sort(key=lambda x: len(x[0]))
         ctx.ob(rid, f'plan:{key}', loc, f'{text} (all {nacc} accepted dictionaries of the option space)', not bad,
                '; '.join(f'format(sql, **{o}) builds {r}' for o, r in bad[:2]) + (f' (+{len(bad) - 2} more)' if len(bad) > 2 else ''))
+
+
+def _empty_slice_insert(node, tokp):
+    """`L[i:i] = [token]`"""
+    if not (isinstance(node, ast.Assign) and len(node.targets) == 1 and isinstance(node.targets[0], ast.Subscript)):
+        return False
+    sl = node.targets[0].slice
+    if not (isinstance(sl, ast.Slice) and sl.step is None and sl.lower is not None and sl.upper is not None and src(sl.lower) == src(sl.upper)):
+        return False
+    v = node.value
+    return isinstance(v, (ast.List, ast.Tuple)) and len(v.elts) == 1 and isinstance(v.elts[0], ast.Name) and v.elts[0].id == tokp
+
+
+def check_tree_api_contract(ctx, rid):
+    """The layout rules (R6.1) accept `tlist.insert_before/insert_after(where, <whitespace token>)` as an insertion of whitespace.
+    That reading is only right if the two helpers of TokenList do what their names say: on every path that returns they put
+    exactly the given token into self.tokens once (insert/append), set its parent, and change nothing else of the tree; the
+    look-ups they call have no tree effects at all."""
+    from .astutil import enum_paths
+    repo = ctx.repo
+    cg = get_cg(ctx)
+    tl = repo.mod('sqlparse.sql').classes['TokenList']
+    n = 0
+    for name in ('insert_before', 'insert_after'):
+        f = repo.funcs.get(f'{tl.qname}.{name}')
+        ctx.need(f is not None, f'TokenList.{name} not found')
+        tokp = f.params[2] if len(f.params) > 2 else None
+        ctx.need(tokp is not None, f'TokenList.{name} has no token parameter')
+        loc0 = f'{f.mod.relpath}:{f.node.lineno}'
+        ins_nodes = {}
+        for e in effects_of(f, cg):
+            key = f'{name}:{e.kind}:{e.detail}'
+            if e.kind == 'attr-store' and e.attr == 'parent':
+                ok = e.recv == tokp and isinstance(e.node, ast.Assign) and src(e.node.value) == f.params[0]
+                ctx.ob(rid, key, e.loc, f'`{e.detail}` makes the list the parent of the inserted token', ok,
+                       'the helper re-parents something other than the token it inserts')
+            elif e.kind == 'list-mut' and e.attr in ('insert', 'append') and e.recv == f'{f.params[0]}.tokens':
+                arg = e.node.args[-1]
+                ok = isinstance(arg, ast.Name) and arg.id == tokp
+                ins_nodes[id(e.node)] = e
+                ctx.ob(rid, key, e.loc, f'`{e.detail}` puts the given token into the child list', ok,
+                       f'inserted value `{src(arg)}` is not the parameter {tokp}')
+            elif e.kind == 'list-mut' and e.attr == 'setitem' and _empty_slice_insert(e.node, tokp):
+                ins_nodes[id(e.node)] = e
+                ctx.ob(rid, key, e.loc, f'`{e.detail}` puts the given token into the child list (empty-slice assignment)', True)
+            elif e.kind in ('list-mut', 'tokens-rebind', 'tree-api', 'item-store') or (e.kind == 'attr-store' and e.attr in ('value', 'ttype', 'normalized', 'tokens')):
+                ctx.ob(rid, key, e.loc, f'TokenList.{name} only inserts: no other change of a child list or a token', False,
+                       f'`{e.detail}` removes, replaces or rewrites tokens inside the helper every layout filter uses to add whitespace: '
+                       f'a significant token (e.g. a comment next to the insertion point) can disappear from the formatted output')
+            else:
+                continue
+            n += 1
+        # exactly one insertion on every returning path
+        for i, p in enumerate(enum_paths(f.node.body)):
+            if p.exit == 'raise':
+                continue
+            cnt = 0
+            for ev in p.events:
+                node = ev[1] if ev[0] == 'stmt' else None
+                if node is None:
+                    continue
+                cnt += sum(1 for c in ast.walk(node) if id(c) in ins_nodes)
+            n += 1
+            ctx.ob(rid, f'{name}:path{i}', loc0, f'path {i} of TokenList.{name} inserts the token exactly once', cnt == 1,
+                   f'{cnt} insertions on the path with tests {[src(e[1]) + "=" + str(e[2]) for e in p.events if e[0] == "test"]}')
+        # callees are look-ups
+        for q in sorted(cg.reachable([f]) - {f.qname}):
+            g = repo.funcs.get(q)
+            if g is None:
+                continue
+            bad = [e for e in effects_of(g, cg) if e.kind in ('list-mut', 'tokens-rebind', 'tree-api') or
+                   (e.kind == 'attr-store' and e.attr in ('value', 'ttype', 'normalized', 'tokens', 'parent') and g.name != '__init__')]
+            n += 1
+            ctx.ob(rid, f'{name}:callee:{g.short}', f'{g.mod.relpath}:{g.node.lineno}', f'{g.short} (called by TokenList.{name}) has no tree effect',
+                   not bad, f'{[e.detail for e in bad][:3]}')
+    ctx.need(n >= 8, f'tree API contract: only {n} obligations')
+
+
+def check_handler_tables(ctx, rid, filters=('ReindentFilter', 'AlignedIndentFilter', 'StripWhitespaceFilter')):
+    """A `_process_<cls>` / `_stripws_<cls>` handler receives groups of class <cls>; where it looks for the group's own
+    delimiter with a literal (token_next_by(m=(T.Keyword, 'WHERE')), .match(T.Keyword, 'END')) the literal must name every
+    word the class's M_OPEN / M_CLOSE table accepts -- otherwise groups opened by the other words fall through the handler's
+    early exit and are left as they are.  Sibling tables of one interface must agree (reference to the class constant is
+    agreement by construction)."""
+    from .fold import NotConst, TT
+    repo, folder = ctx.repo, ctx.folder
+    cg = get_cg(ctx)
+    sqlmod = repo.mod('sqlparse.sql')
+    by_lower = {c.name.lower(): c for c in sqlmod.classes.values()}
+    n = 0
+
+    def words(v):
+        if isinstance(v, str):
+            return {v.upper()}
+        if isinstance(v, (tuple, list, set, frozenset)):
+            return {x.upper() for x in v if isinstance(x, str)}
+        return None
+    for q, d in cg.dispatch.items():
+        if not any(q.startswith(filter_class(ctx, fc).qname + '.') for fc in filters):
+            continue
+        for m in d['targets']:
+            suffix = m.name[len(d['prefix']):]
+            c = by_lower.get(suffix)
+            if c is None:
+                continue
+            tabs = {}
+            for attr in ('M_OPEN', 'M_CLOSE'):
+                node, owner = repo.lookup_class_attr(c, attr)
+                if node is None:
+                    continue
+                try:
+                    v = folder.eval(node, c.mod, None, owner or c)
+                except NotConst:
+                    continue
+                if isinstance(v, tuple) and len(v) == 2 and isinstance(v[0], TT):
+                    tabs[attr] = (v[0], words(v[1]))
+            if not tabs:
+                continue
+            for node in own_nodes(m.node):
+                lit = None
+                if isinstance(node, ast.keyword) and node.arg == 'm' and isinstance(node.value, ast.Tuple) and len(node.value.elts) == 2:
+                    lit = node.value.elts
+                    where = node.value
+                elif isinstance(node, ast.Call) and isinstance(node.func, ast.Attribute) and node.func.attr == 'match' and len(node.args) >= 2:
+                    lit = node.args[:2]
+                    where = node
+                if lit is None:
+                    continue
+                try:
+                    tt = folder.eval(lit[0], m.mod, None, None)
+                    w = words(folder.eval(lit[1], m.mod, None, None))
+                except NotConst:
+                    continue
+                if not w:
+                    continue
+                for attr, (ctt, cw) in tabs.items():
+                    if cw and tt == ctt and (w & cw):
+                        n += 1
+                        ctx.ob(rid, f'{m.short}:{attr}:{"|".join(sorted(w))}', f'{m.mod.relpath}:{where.lineno}',
+                               f'{m.short} looks for the delimiter of a {c.name} with {sorted(w)}; {c.name}.{attr} accepts {sorted(cw)}', cw <= w,
+                               f'{c.name}.{attr} also accepts {sorted(cw - w)}: a {c.name} group delimited by that word is not recognised by its own '
+                               f'handler (early exit / wrong anchor), so its clause keywords are not laid out')
+    ctx.need(n >= 2, f'handler/table agreement: only {n} literal sites found')
